@@ -282,7 +282,7 @@ func runC10(c *h.Ctx) {
 	g := &gen.G{R: r, C: gen.DefaultCfg()}
 	g.C.Datetime = true
 	dc := gen.DefaultDocCfg()
-	n := c.PerShard(c.N(150000, 3000000))
+	n := c.PerShard(c.N(600000, 6000000))
 	for i := 0; i < n; i++ {
 		lax := r.IntN(2) == 0
 		prefix := &gen.N{K: gen.KRoot}
@@ -290,6 +290,22 @@ func runC10(c *h.Ctx) {
 			prefix.Append(g.Step(1, false, false))
 		}
 		cond := g.Pred(2, true, false)
+		if r.IntN(4) == 0 {
+			// sequence operands: a comparison between item sequences of several, possibly
+			// incomparable, items (existential in lax mode, all-pairs in strict mode)
+			seqs := []func() *gen.N{
+				func() *gen.N { return &gen.N{K: gen.KCurrent, Next: &gen.N{K: gen.KAnyArray}} },
+				func() *gen.N { return &gen.N{K: gen.KRoot, Next: &gen.N{K: gen.KKey, S: g.C.Keys[r.IntN(len(g.C.Keys))], Next: &gen.N{K: gen.KAnyArray}}} },
+				func() *gen.N { return &gen.N{K: gen.KVar, S: "arr", Next: &gen.N{K: gen.KAnyArray}} },
+				func() *gen.N { return &gen.N{K: gen.KCurrent, Next: &gen.N{K: gen.KKey, S: g.C.Keys[r.IntN(len(g.C.Keys))]}} },
+				func() *gen.N { return gen.NumFromText(g.C.Nums[r.IntN(len(g.C.Nums))], false) },
+				func() *gen.N { return &gen.N{K: gen.KRoot, Next: &gen.N{K: gen.KAnyArray}} },
+			}
+			cond = &gen.N{K: gen.KBin, S: cmpOpsAll[r.IntN(len(cmpOpsAll))], A: seqs[r.IntN(len(seqs))](), B: seqs[r.IntN(len(seqs))]()}
+			if r.IntN(3) == 0 {
+				cond = &gen.N{K: gen.KUn, S: "isunknown", A: cond}
+			}
+		}
 		var cond2 *gen.N
 		if !lax && r.IntN(2) == 0 {
 			cond2 = g.Pred(1, true, false)
